@@ -66,6 +66,13 @@ FUNCS = [
     dict(id=28, c="mi_bitmap_mask_"),
     dict(id=29, c="mi_segment_calculate_slices", out=["info_slices"],
          calls={"_mi_os_page_size": ("term", "os_page_size_default", "size_t")}),
+    # arena.c (Model/Bind.v, properties C14/C15): arena ids are `int` -> Z
+    dict(id=30, c="_mi_arena_id_none"),
+    dict(id=31, c="mi_arena_id_index"),
+    dict(id=32, c="mi_arena_id_create"),
+    dict(id=33, c="mi_arena_id_is_suitable"),
+    dict(id=34, c="mi_block_count_of_size"),
+    dict(id=35, c="mi_arena_block_size"),
 ]
 
 # sizeof(T) for struct types: constants of Gen/Consts.v (dumped by harness/gen_dump.c from the same tree)
